@@ -141,17 +141,27 @@ func (ft *FileTransfer) String() string {
 	return fmt.Sprintf("%-21s %.3s%%  %6s\n", trunc, ft.percentComplete(), ft.formattedTransferSize())
 }
 
+// transferSize is the size the client announced for the transfer, 0 if it announced none (or not four bytes of it):
+// the field comes from the client as it is and must not bring down whoever looks at the transfer.
+func (ft *FileTransfer) transferSize() uint32 {
+	if len(ft.TransferSize) < 4 {
+		return 0
+	}
+
+	return binary.BigEndian.Uint32(ft.TransferSize)
+}
+
 func (ft *FileTransfer) percentComplete() string {
 	ft.bytesSentCounter.mux.Lock()
 	defer ft.bytesSentCounter.mux.Unlock()
 	return fmt.Sprintf(
 		"%v",
-		math.RoundToEven(float64(ft.bytesSentCounter.Total)/float64(binary.BigEndian.Uint32(ft.TransferSize))*100),
+		math.RoundToEven(float64(ft.bytesSentCounter.Total)/float64(ft.transferSize())*100),
 	)
 }
 
 func (ft *FileTransfer) formattedTransferSize() string {
-	sizeInKB := float32(binary.BigEndian.Uint32(ft.TransferSize)) / 1024
+	sizeInKB := float32(ft.transferSize()) / 1024
 	if sizeInKB >= 1024 {
 		return fmt.Sprintf("%.1fM", sizeInKB/1024)
 	} else {
